@@ -433,6 +433,16 @@ func injectorCallErrors(pos token.Position, name string, calls []call, injectSig
 	return errs
 }
 
+// objectOf returns the object id denotes. Unlike info.ObjectOf, for the type
+// name of an embedded field it returns the type rather than the field the
+// identifier also declares: the type is what has to be qualified or renamed.
+func objectOf(info *types.Info, id *ast.Ident) types.Object {
+	if obj := info.Uses[id]; obj != nil {
+		return obj
+	}
+	return info.Defs[id]
+}
+
 // rewritePkgRefs rewrites any package references in an AST into references for the
 // generated package.
 func (g *gen) rewritePkgRefs(info *types.Info, node ast.Node) ast.Node {
@@ -444,7 +454,7 @@ func (g *gen) rewritePkgRefs(info *types.Info, node ast.Node) ast.Node {
 		switch node := c.Node().(type) {
 		case *ast.Ident:
 			// This is an unqualified identifier (qualified identifiers are peeled off below).
-			obj := info.ObjectOf(node)
+			obj := objectOf(info, node)
 			if obj == nil {
 				return false
 			}
@@ -493,9 +503,16 @@ func (g *gen) rewritePkgRefs(info *types.Info, node ast.Node) ast.Node {
 	// Names already used inside node: a new name must not capture or
 	// redeclare any of them.
 	usedNames := make(map[string]bool)
+	// Objects declared inside node, by position. The symbolic variable of a
+	// type switch has no object of its own: each clause declares an implicit
+	// variable at its position, and all of them must get the same new name.
+	declAt := make(map[token.Pos]types.Object)
 	ast.Inspect(node, func(n ast.Node) bool {
 		if id, ok := n.(*ast.Ident); ok {
 			usedNames[id.Name] = true
+			if obj := objectOf(info, id); obj != nil && start <= obj.Pos() && obj.Pos() < end && declAt[obj.Pos()] == nil {
+				declAt[obj.Pos()] = obj
+			}
 		}
 		return true
 	})
@@ -509,11 +526,15 @@ func (g *gen) rewritePkgRefs(info *types.Info, node ast.Node) ast.Node {
 		if !ok {
 			return true
 		}
-		obj := info.ObjectOf(id)
+		obj := objectOf(info, id)
 		if obj == nil {
-			// We rewrote this identifier earlier, so it does not need
-			// further rewriting.
-			return true
+			// Either the symbolic variable of a type switch, or we rewrote
+			// this identifier earlier and it does not need further rewriting.
+			if obj = declAt[id.Pos()]; obj == nil || obj.Name() != id.Name {
+				return true
+			}
+		} else if first := declAt[obj.Pos()]; first != nil && first.Name() == obj.Name() {
+			obj = first
 		}
 		if n, ok := newNames[obj]; ok {
 			// We picked a new name for this symbol. Rewrite it.
